@@ -23,7 +23,9 @@ Not demanded (ambiguous or outside the statement)
   * NaN / Infinity, bytes, the `numeric` paramstyle, lists under qmark (the connector's qmark list = array binding),
     list elements other than str/int (the connector itself renders other element types wrongly), empty parameter
     sequences next to %% (connector and docs disagree), Decimals whose str() uses exponent notation, years < 1000
-    (the connector writes them unpadded, Snowflake's reading of that text is undocumented);
+    (the connector writes them unpadded, Snowflake's reading of that text is undocumented), floats whose shortest
+    repr has more than 15 significant digits (client-side they travel as a fixed-point constant, and NUMBER -> FLOAT
+    conversion is not documented to be correctly rounded; DuckDB's is not);
   * the Python *type* of an untyped temporal/Decimal/float parameter in a select list: the connector sends these as
     string constants / fixed-point constants, so such values are only placed where the SQL context fixes the type
     (cast in the select list, column of the value's type);
@@ -37,8 +39,9 @@ Not demanded (ambiguous or outside the statement)
     delivered as column data (scalar subquery on a raw-loaded table, no quoting involved): that is the operator's
     behaviour (or the model's error), not the binding; it is counted in evidence (`shared_deviation_from_model`) and
     not reported.  A literal statement (independent renderer) that deviates while the bound one is right is only
-    counted (`literal_path_deviation`: fakesnow inlines $name inside string constants and has no NUL escape -
-    C15/C01 territory); the literal execution is evidence in every counterexample, not the judge.
+    counted (`literal_path_deviation`: fakesnow's parser has no \\x00 / \\0 escape, and before the C15 fixes $name
+    was inlined inside string constants - C01/C15 territory); the literal execution is evidence in every
+    counterexample and the cross-check of the model, not the judge.
 """
 from __future__ import annotations
 
@@ -395,7 +398,7 @@ def vclass(fam, v):
             return "int:uint64"
         return "int:pos_over_uint64" if v > 0 else "int:neg_over_int64"
     if fam == "float":
-        return "float:negzero" if (v == 0 and str(v).startswith("-")) else ("float:subnormal" if abs(v) < 2.3e-308 else "float")
+        return "float:negzero" if (v == 0 and str(v).startswith("-")) else ("float:subnormal" if 0 < abs(v) < 2.2250738585072014e-308 else "float")
     return fam
 
 
@@ -896,9 +899,10 @@ def run(ctx: core.Ctx):
         "bools, NULL, date/timestamp/timestamp_tz/time edges) x 13 placeholder positions x 4 paramstyles "
         "(pyformat tuple, pyformat dict with repeated keys, format list, qmark), each executed once with bound "
         "parameters and once with the value written as a Snowflake constant by the independent renderer, judged "
-        "against a Python model; plus all ordered pairs of strings in two adjacent placeholders (select / insert) x 4 "
+        "against a Python model (matching positions: a deviation is reported only if the same statement with the "
+        "value delivered as column data does not show it); plus all ordered pairs of strings in two adjacent placeholders (select / insert) x 4 "
         "styles; executemany (insert / update) over 0, 1 and 3 parameter sets x family x style; paramstyle changed "
-        "after connect (3 x 3 x cursor made before/after). Quick tier: strings reduced to the breaker list except at "
+        "after connect (made under 3 x changed to 3 others incl. numeric x cursor made before/after x 7 cases, plus a second connection under the new value). Quick tier: strings reduced to the breaker list except at "
         "positions sel/ins/where/like_pat/comment_lit, pairs over the breaker list. Non-trivial = case whose value is "
         "not NULL/empty/zero (value positions) or whose expected row set is non-empty (matching positions)."
     )
